@@ -251,7 +251,6 @@ class MDSDRV_Linker
 		std::string unique_string(const std::string& input, String_Counter& map) const;
 
 		std::vector<std::vector<uint8_t>> data_bank;
-		std::vector<int> data_offset;
 		std::map<std::string, std::vector<Seq_Data>> seq_bank;
 		Wave_Bank wave_rom;
 };
